@@ -323,6 +323,8 @@ def simp1(t):
             if -len(b[1]) <= i[1] < len(b[1]):
                 return b[1][i[1]]
             return TOP('IndexError: %s' % show(t))
+        if b[0] == 'call' and b[1] == ('sym', 'vars') and len(b[2]) == 1 and i[0] == 'const' and isinstance(i[1], str):
+            return ('attr', b[2][0], i[1])                 # vars(obj)['name']  is  obj.name
         if b[0] == 'bin' and b[1] == 'Mult' and b[2][0] == 'list' and len(b[2][1]) == 1 and b[2][1][0][0] == 'const':
             return b[2][1][0]          # ([c] * n)[i]: a list nobody filled still holds its initial constant
         if b[0] == 'dict':
